@@ -230,6 +230,37 @@ def entry_values(rep, cfg):
                "from_random_bytes may only hand out the decoder's output (or None); offending flows: %s" % bad[:2], where=cfg.where(p))
 
 
+def samplers(rep, cfg):
+    """rejection samplers: the only values handed out are decoder outputs (the raw random curve point only feeds the encoder/decoder)"""
+    if cfg.name != "A":
+        return
+    loc = c02.decode_summary(cfg, rep)
+    for path, b in sorted(cfg.prog.bodies.items()):
+        if not (path.endswith("::sample") and "Distribution" in path and ("Element" in path or "AffinePoint" in path) and "fields::" not in path):
+            continue
+        out = cfg.run(path, local=loc)
+        vals = [a[0] for pc, kind, a, site in out.effects if kind == "loop_return"]
+        for pc, v in C.expand_flows(out.flows):
+            if v.op not in ("bottom", "unit"):
+                vals.append(v)
+        bad = []
+        for v in vals:
+            x = v
+            while x.op == "payload":
+                x = x.args[0]
+            kind, d = c02.strip_point(v) if v.op == "struct" else ("element" if True else None, None)
+            ok = False
+            for t in Tm.subterms(v):
+                if t.op == "decoded":
+                    ok = True
+            raw = [t for t in Tm.subterms(v) if t.op in ("uniform_rand", "rng_sample", "te_from_random_bytes") and not any(t in set(Tm.subterms(dd)) for dd in Tm.subterms(v) if dd.op == "decoded")]
+            if not ok or raw:
+                bad.append(Tm.show(v, maxdepth=4))
+        rep.ob("PROV/A/%s" % norm_path(path), bool(vals) and not bad,
+               "a sampler may only return values that come out of the decoder (rejection sampling until decode succeeds); returned: %s" % ([Tm.show(v, maxdepth=3) for v in vals][:3] if not bad else bad[:2]),
+               where=cfg.where(path))
+
+
 def run(rep, facts, tier):
     rep.explanation = (
         "PROV: Element.inner / AffinePoint.inner are pub(crate) and the minimal backend's coordinates are private, so values of these types arise only "
@@ -247,6 +278,7 @@ def run(rep, facts, tier):
         cfg = Cfg(f)
         counts[name] = prov(rep, cfg, f)
         entry_values(rep, cfg)
+        samplers(rep, cfg)
         c17.curve_constants(rep, f, name)
     rep.analysed["construction_sites"] = counts
     if "A" in counts:
